@@ -103,7 +103,8 @@ func (p *FloatingIPPlugin) getSubnet(pod *corev1.Pod) (sets.String, error) {
 				unallocatedIPRange = append(unallocatedIPRange, ipranges[i])
 			} else {
 				ips = append(ips, ipInfos[i].IP.String())
-				if allocatedSubnets.Len() == 0 {
+				// an empty set after the first allocated ip means an empty intersection, don't start over
+				if len(ips) == 1 {
 					allocatedSubnets.Insert(ipInfos[i].NodeSubnets.UnsortedList()...)
 				} else {
 					allocatedSubnets = allocatedSubnets.Intersection(ipInfos[i].NodeSubnets)
